@@ -201,9 +201,7 @@ class Write(object):
                 continue
 
             # write output
-            if "output" not in context:
-                context["output"] = {}
-            outputc = context["output"]
+            outputc = context.get("output", {})
             try:
                 dirname, filename, fileext, filepath = self._make_filename(outputc)
             except lena.core.LenaRuntimeError:
@@ -219,6 +217,9 @@ class Write(object):
             if data == filepath:
                 yield val
                 continue
+
+            # the value will be written: attach output to its context
+            context["output"] = outputc
 
             # dirname is not changed, no need to update it
             outputc["filename"] = filename
